@@ -8,6 +8,7 @@ import (
 	"encoding/binary"
 	"errors"
 	"fmt"
+	"hash/crc32"
 	"io"
 	"math"
 	"os"
@@ -69,7 +70,7 @@ func genCodecCase(t *rapid.T) *CodecCase {
 		}
 		c.Msgs = append(c.Msgs, m)
 	}
-	c.Damage = pick(t, []string{"", "", "tail", "cut", "flip", "zero", "flip"}, "damage")
+	c.Damage = pick(t, []string{"", "", "tail", "cut", "flip", "zero", "flip", "flipfix", "trailerfix"}, "damage")
 	c.DPos = rapid.IntRange(0, 1<<20).Draw(t, "dpos")
 	c.DLen = rapid.IntRange(1, 80).Draw(t, "dlen")
 	c.DByte = byte(rapid.IntRange(1, 255).Draw(t, "dbyte"))
@@ -232,6 +233,25 @@ func runCodecCase(c *CodecCase, st *Stats, dir string) {
 	case "flip":
 		if len(file) > minLen {
 			file[minLen+c.DPos%(len(file)-minLen)] ^= c.DByte
+		}
+	case "flipfix", "trailerfix":
+		// damage that repairs the checksum of the record it hits (at the record's original boundaries): only the
+		// other validity conditions of the format can tell
+		if len(recs) > 0 {
+			r := recs[c.DPos%len(recs)]
+			pos := r.Pos + int64(c.DPos/7)%(r.End-r.Pos)
+			if c.Damage == "trailerfix" {
+				if !c.V2 {
+					break
+				}
+				pos = r.End - 8 + int64(c.DPos/7)%8
+			}
+			file[pos] ^= c.DByte
+			if c.V2 {
+				binary.BigEndian.PutUint32(file[r.Pos:], crc32.Checksum(file[r.Pos+4:r.End], crc32.MakeTable(crc32.Castagnoli)))
+			} else {
+				binary.BigEndian.PutUint32(file[r.Pos+24:], crc32.Checksum(file[r.Pos+28:r.End], crc32.MakeTable(crc32.Castagnoli)))
+			}
 		}
 	}
 	if c.Damage != "" {
@@ -434,5 +454,60 @@ func FuzzParseDifferential(f *testing.F) {
 		if v := protect(func() { compareReaders("fuzz", p, 0, file, v2, rrecs, clean) }); v != nil {
 			t.Fatalf("%v", v)
 		}
+		// the same bytes with every frame's checksum recomputed (frames found by walking the length fields): gets the
+		// search past the CRC so that the remaining validity conditions are compared as well
+		fixed := fixupCRCs(v2, file)
+		if fixed == nil {
+			return
+		}
+		if err := os.WriteFile(p, fixed, 0600); err != nil {
+			t.Fatal(err)
+		}
+		if v2 {
+			rrecs, _, clean = RefParseV2(fixed)
+		} else {
+			rrecs, _, clean = RefParseV1(fixed)
+		}
+		if v := protect(func() { compareReaders("fuzz-crcfix", p, 0, fixed, v2, rrecs, clean) }); v != nil {
+			t.Fatalf("%v", v)
+		}
 	})
+}
+
+// fixupCRCs walks the frames of a log file by their length fields and recomputes each checksum; nil if nothing changed.
+func fixupCRCs(v2 bool, file []byte) []byte {
+	out := append([]byte{}, file...)
+	pos := 0
+	if v2 {
+		pos = 8
+	}
+	tab := crc32.MakeTable(crc32.Castagnoli)
+	for len(out)-pos >= 28 {
+		var kl, vl int64
+		if v2 {
+			kl, vl = int64(int32(binary.BigEndian.Uint32(out[pos+20:]))), int64(int32(binary.BigEndian.Uint32(out[pos+24:])))
+		} else {
+			kl, vl = int64(int32(binary.BigEndian.Uint32(out[pos+16:]))), int64(int32(binary.BigEndian.Uint32(out[pos+20:])))
+		}
+		if kl < 0 || vl < 0 || kl+vl > 1<<20 {
+			break
+		}
+		total := 28 + int(kl+vl)
+		if v2 {
+			total += 8
+		}
+		if len(out)-pos < total {
+			break
+		}
+		if v2 {
+			binary.BigEndian.PutUint32(out[pos:], crc32.Checksum(out[pos+4:pos+total], tab))
+		} else {
+			binary.BigEndian.PutUint32(out[pos+24:], crc32.Checksum(out[pos+28:pos+total], tab))
+		}
+		pos += total
+	}
+	if bytes.Equal(out, file) {
+		return nil
+	}
+	return out
 }
